@@ -265,6 +265,21 @@ Definition padding (d : doc) (t : Q) (chain : list link) : option value :=
   | [] => None
   end.
 
+(* disparity (not inheritable): % of the root container width, c/px of the cell / pixel width, em of the own font size *)
+Definition disparity (d : doc) (t : Q) (chain : list link) : option value :=
+  match chain with
+  | x :: _ =>
+      match own_or_default d t p_Disparity x with
+      | Some (VLen l) =>
+          match rel l (Some (mkLen 100 Urw)) (font_size d t chain) (Some (cell_w d)) (Some (pixel_w d)) with
+          | Some l' => Some (VLen l')
+          | None => None
+          end
+      | _ => None
+      end
+  | [] => None
+  end.
+
 (* the computed value of property p for the element at the head of the chain *)
 Definition computed_spec (d : doc) (t : Q) (chain : list link) (p : Z) : option value :=
   if p =? p_FontSize then match font_size d t chain with Some l => Some (VLen l) | None => None end
@@ -277,6 +292,7 @@ Definition computed_spec (d : doc) (t : Q) (chain : list link) (p : Z) : option 
   else if p =? p_Position then match origin d t chain with Some (x, y) => Some (VPos x e_PositionType_HEdge_left y e_PositionType_VEdge_top) | None => None end
   else if p =? p_Padding then padding d t chain
   else if p =? p_WritingMode then writing_mode d t chain
+  else if p =? p_Disparity then disparity d t chain
   else plain d t p chain.
 
 (* ---- the statement about whole snapshots --------------------------------------------------------------------------------
